@@ -184,4 +184,171 @@ theorem bsplvbSimple_relerr (hε : 0 ≤ ε) (hfl : ∀ a, RelErr ε 1 a (fl a))
     (fun m hm => le_trans (hmono _ _ (by omega) (by omega) (by omega)) hx1)
   simpa using this
 
+
+/-! ## the coefficient-block walk: absolute error against the sum of magnitudes -/
+
+/-- accumulator invariant: the rounded accumulator `b` is within `gfac K · S` of the exact one `a`,
+where `S` bounds the magnitudes accumulated so far -/
+def Acc (ε : F) (K : Nat) (S a b : F) : Prop := |b - a| ≤ gfac ε K * S ∧ |a| ≤ S
+
+theorem Acc.mono (hε : 0 ≤ ε) {K K' : Nat} {S a b : F} (h : Acc ε K S a b) (hK : K ≤ K') : Acc ε K' S a b := by
+  refine ⟨le_trans h.1 (mul_le_mul_of_nonneg_right (gfac_mono hε hK) (le_trans (abs_nonneg _) h.2)), h.2⟩
+
+/-- one accumulation `acc = st(fl(acc + term))`: two more roundings on everything accumulated so far -/
+theorem Acc.step (hε : 0 ≤ ε) {K kt : Nat} {S a b tE tR c : F} (h : Acc ε K S a b) (ht : RelErr ε kt tE tR)
+    (hk : kt ≤ K) (hc : RelErr ε 2 (b + tR) c) : Acc ε (K + 2) (S + |tE|) (a + tE) c := by
+  obtain ⟨r, rfl, r1, r2⟩ := ht
+  obtain ⟨ρ, rfl, p1, p2⟩ := hc
+  have hρ0 : 0 < ρ := RelErr.factor_pos hε p1
+  have hρ : |ρ - 1| ≤ gfac ε 2 := RelErr.abs_factor hε p1 p2
+  have hrρ : |r * ρ - 1| ≤ gfac ε (K + 2) := by
+    have hm := RelErr.mul hε (⟨r, rfl, r1, r2⟩ : RelErr ε kt 1 (1 * r)) (⟨ρ, rfl, p1, p2⟩ : RelErr ε 2 1 (1 * ρ))
+    obtain ⟨q, e, q1, q2⟩ := hm
+    have hq : q = r * ρ := by simpa using e.symm
+    rw [← hq]
+    exact le_trans (RelErr.abs_factor hε q1 q2) (gfac_mono hε (by omega))
+  have hS : 0 ≤ S := le_trans (abs_nonneg _) h.2
+  have key : (b + tE * r) * ρ - (a + tE) = (b - a) * ρ + a * (ρ - 1) + tE * (r * ρ - 1) := by ring
+  have hg : gfac ε K * (1 + ε) ^ 2 + gfac ε 2 = gfac ε (K + 2) := by unfold gfac; ring
+  constructor
+  · rw [key]
+    have t1 : |(b - a) * ρ| ≤ gfac ε K * S * (1 + ε) ^ 2 := by
+      rw [abs_mul, abs_of_pos hρ0]
+      exact mul_le_mul h.1 p2 (le_of_lt hρ0) (mul_nonneg (gfac_nonneg hε K) hS)
+    have t2 : |a * (ρ - 1)| ≤ S * gfac ε 2 := by
+      rw [abs_mul]; exact mul_le_mul h.2 hρ (abs_nonneg _) hS
+    have t3 : |tE * (r * ρ - 1)| ≤ |tE| * gfac ε (K + 2) := by
+      rw [abs_mul]; exact mul_le_mul_of_nonneg_left hrρ (abs_nonneg _)
+    calc |(b - a) * ρ + a * (ρ - 1) + tE * (r * ρ - 1)|
+        ≤ |(b - a) * ρ| + |a * (ρ - 1)| + |tE * (r * ρ - 1)| := abs_add_three _ _ _
+      _ ≤ gfac ε K * S * (1 + ε) ^ 2 + S * gfac ε 2 + |tE| * gfac ε (K + 2) := by linarith
+      _ = gfac ε (K + 2) * (S + |tE|) := by rw [← hg]; ring
+  · exact le_trans (abs_add_le _ _) (by linarith [h.2])
+
+/-- number of accumulated terms of a block walk -/
+def nterms : List (Nat × List F) → Nat
+  | [] => 0
+  | [(_, row)] => row.length
+  | (_, row) :: r :: rest => row.length * nterms (r :: rest)
+
+/-- paired exact / rounded rows: same strides, entries related by `kr` roundings, exact entries ≥ 0 -/
+def RowsRel (ε : F) (kr : Nat) (rowsE rowsR : List (Nat × List F)) : Prop :=
+  List.Forall₂ (fun re rr => re.1 = rr.1 ∧ List.Forall₂ (RelErr ε kr) re.2 rr.2 ∧ ∀ b ∈ re.2, 0 ≤ b) rowsE rowsR
+
+section walk
+variable (hε : 0 ≤ ε) (hfl : ∀ a, RelErr ε 1 a (fl a)) (hst : ∀ a, RelErr ε 1 a (st a)) (coef : Int → F)
+include hε hfl hst
+
+theorem walkLast_err (kt kr kb : Nat) (btE btR : F) (hbt : RelErr ε kb btE btR) (hbt0 : 0 ≤ btE)
+    (hk : kb + kr + 4 ≤ kt) :
+    ∀ (rowE rowR : List F) (pos : Int) (accE accR S : F) (m : Nat),
+      List.Forall₂ (RelErr ε kr) rowE rowR → (∀ b ∈ rowE, 0 ≤ b) → Acc ε (kt + 2 * m) S accE accR →
+      Acc ε (kt + 2 * (m + rowE.length))
+        (@walkLast F (Arith.ofField F) (fun i => |coef i|) btE rowE pos S)
+        (@walkLast F (Arith.ofField F) coef btE rowE pos accE)
+        (@walkLast F (Arith.rounded fl st) coef btR rowR pos accR) := by
+  intro rowE
+  induction rowE with
+  | nil => intro rowR pos accE accR S m h _ hacc; cases h; simpa [walkLast] using hacc
+  | cons b bs ih =>
+    intro rowR pos accE accR S m h hnn hacc
+    cases h with
+    | cons hb hbs =>
+      rename_i bR bsR
+      simp only [walkLast, of_sadd, of_smul, rd_sadd, rd_smul]
+      have hb0 : 0 ≤ b := hnn b (by simp)
+      have hterm : RelErr ε kt (btE * b * coef pos) (st (fl (st (fl (btR * bR)) * coef pos))) := by
+        have h1 := RelErr.round hε hst (RelErr.round hε hfl (RelErr.mul hε hbt hb))
+        have h2 := RelErr.round hε hst (RelErr.round hε hfl (RelErr.mul hε h1 (RelErr.refl hε (coef pos))))
+        exact h2.mono hε (by omega)
+      have hc : RelErr ε 2 (accR + st (fl (st (fl (btR * bR)) * coef pos)))
+          (st (fl (accR + st (fl (st (fl (btR * bR)) * coef pos))))) := by
+        simpa using RelErr.round hε hst (RelErr.round hε hfl (RelErr.refl hε _))
+      have hstep := Acc.step hε hacc hterm (by omega) hc
+      have habs : |btE * b * coef pos| = btE * b * |coef pos| := by
+        rw [abs_mul, abs_of_nonneg (mul_nonneg hbt0 hb0)]
+      rw [habs] at hstep
+      have := ih bsR (pos + 1) _ _ _ (m + 1) hbs (fun c hc => hnn c (by simp [hc]))
+        (by have e : kt + 2 * (m + 1) = kt + 2 * m + 2 := by ring
+            rw [e]; exact hstep)
+      have e2 : m + 1 + bs.length = m + (b :: bs).length := by simp only [List.length_cons]; omega
+      rw [e2] at this
+      exact this
+
+theorem walkRow_err (kt kr kb : Nat) (s : Nat) (restE restR : List (Nat × List F))
+    (ih : ∀ (btE btR : F), RelErr ε (kb + kr + 2) btE btR → 0 ≤ btE →
+      ∀ (pos : Int) (accE accR S : F) (m : Nat), Acc ε (kt + 2 * m) S accE accR →
+        Acc ε (kt + 2 * (m + nterms restE))
+          (@walk F (Arith.ofField F) (fun i => |coef i|) restE btE pos S)
+          (@walk F (Arith.ofField F) coef restE btE pos accE)
+          (@walk F (Arith.rounded fl st) coef restR btR pos accR))
+    (btE btR : F) (hbt : RelErr ε kb btE btR) (hbt0 : 0 ≤ btE) :
+    ∀ (rowE rowR : List F) (pos : Int) (accE accR S : F) (m : Nat),
+      List.Forall₂ (RelErr ε kr) rowE rowR → (∀ b ∈ rowE, 0 ≤ b) → Acc ε (kt + 2 * m) S accE accR →
+      Acc ε (kt + 2 * (m + rowE.length * nterms restE))
+        (@walkRow F (Arith.ofField F) (fun i => |coef i|) s restE btE rowE pos S)
+        (@walkRow F (Arith.ofField F) coef s restE btE rowE pos accE)
+        (@walkRow F (Arith.rounded fl st) coef s restR btR rowR pos accR) := by
+  intro rowE
+  induction rowE with
+  | nil => intro rowR pos accE accR S m h _ hacc; cases h; simpa [walkRow] using hacc
+  | cons b bs ihr =>
+    intro rowR pos accE accR S m h hnn hacc
+    cases h with
+    | cons hb hbs =>
+      rename_i bR bsR
+      simp only [walkRow, of_smul, rd_smul]
+      have hb0 : 0 ≤ b := hnn b (by simp)
+      have hbt' : RelErr ε (kb + kr + 2) (btE * b) (st (fl (btR * bR))) :=
+        RelErr.round hε hst (RelErr.round hε hfl (RelErr.mul hε hbt hb))
+      have h1 := ih (btE * b) _ hbt' (mul_nonneg hbt0 hb0) pos accE accR S m hacc
+      have := ihr bsR (pos + s) _ _ _ (m + nterms restE) hbs (fun c hc => hnn c (by simp [hc])) h1
+      have e : m + nterms restE + bs.length * nterms restE = m + (b :: bs).length * nterms restE := by
+        simp only [List.length_cons]; ring
+      rw [e] at this
+      exact this
+
+theorem walk_err (kt kr : Nat) :
+    ∀ (rowsE rowsR : List (Nat × List F)), RowsRel ε kr rowsE rowsR →
+      ∀ (kb : Nat) (btE btR : F), RelErr ε kb btE btR → 0 ≤ btE → kb + rowsE.length * (kr + 2) + 2 ≤ kt →
+      ∀ (pos : Int) (accE accR S : F) (m : Nat), Acc ε (kt + 2 * m) S accE accR →
+        Acc ε (kt + 2 * (m + nterms rowsE))
+          (@walk F (Arith.ofField F) (fun i => |coef i|) rowsE btE pos S)
+          (@walk F (Arith.ofField F) coef rowsE btE pos accE)
+          (@walk F (Arith.rounded fl st) coef rowsR btR pos accR) := by
+  intro rowsE
+  induction rowsE with
+  | nil =>
+    intro rowsR h kb btE btR _ _ _ pos accE accR S m hacc
+    cases h
+    simpa [walk, nterms] using hacc
+  | cons rE restE ih =>
+    intro rowsR h kb btE btR hbt hbt0 hk pos accE accR S m hacc
+    cases h with
+    | cons h1 hrest =>
+      rename_i rR restR
+      obtain ⟨sE, rowE⟩ := rE
+      obtain ⟨sR, rowR⟩ := rR
+      obtain ⟨hs, hrow, hnn⟩ := h1
+      simp only at hs hrow hnn
+      subst hs
+      cases restE with
+      | nil =>
+        cases hrest
+        simp only [walk, nterms]
+        exact walkLast_err hε hfl hst coef kt kr kb btE btR hbt hbt0
+          (by simp only [List.length_cons, List.length_nil] at hk; omega) rowE rowR pos accE accR S m hrow hnn hacc
+      | cons r2 rest2 =>
+        cases hrest with
+        | cons h2 hrest2 =>
+          rename_i r2R rest2R
+          simp only [walk, nterms]
+          exact walkRow_err hε hfl hst coef kt kr kb sE (r2 :: rest2) (r2R :: rest2R)
+            (fun bE bR hb hb0 pos' aE aR S' m' ha =>
+              ih (r2R :: rest2R) (List.Forall₂.cons h2 hrest2) (kb + kr + 2) bE bR hb hb0
+                (by simp only [List.length_cons] at hk ⊢; nlinarith) pos' aE aR S' m' ha)
+            btE btR hbt hbt0 rowE rowR pos accE accR S m hrow hnn hacc
+
+end walk
+
 end PsV
